@@ -5,8 +5,8 @@
     replication.ReplayerImpl.Replay (replay.go:39-65)             replay_tg  (flag = the set's own RecordType == VARIABLE;
                                                                               stops at the first error)
     replication.wtSetToCS (replay.go:77-127)                      wtset_to_cs
-    replication.serializeVariableRecords (replay.go:130-175)      var_rows   (Epoch = interval start for every row; the
-                                                                              seconds returned by GetTimeFromTicks are dropped)
+    replication.serializeVariableRecords (replay.go:130-181)      var_rows   (Epoch = the second GetTimeFromTicks returns,
+                                                                              Nanoseconds = its nanoseconds)
     executor.Writer.WriteCSM (writer.go:262-355), one bucket       write_csm  (GetTime incl. Nanoseconds; Remove("Nanoseconds")
                                                                               only when the flag is set; bucket created with the
                                                                               FLAG's record type; column check)
@@ -167,13 +167,13 @@ Section Repl.
   (** uint32(utils.Day.Seconds() / tf.Duration.Seconds()) for a timeframe of whole seconds that is at most a day *)
   Definition ipd_of (tf : Z) : Z := wrap U32 (86400 / (tf / NS)).
 
-  (** serializeVariableRecords: one row per varRecLen bytes; Epoch = [epoch] for all of them *)
+  (** serializeVariableRecords: one row per varRecLen bytes; every row carries ITS OWN decoded second and
+      nanoseconds (fix: "replay variable-length records with the second GetTimeFromTicks returns") *)
   Definition var_rows (epoch ipd vrl : Z) (payload : list byte) : list row :=
     map (fun rec =>
            let n := length rec in
-           let ticks := rec_ticks rec in
-           let ns := snd (time_from_ticks epoch ipd ticks) in
-           mkrow epoch (firstn (n - 4) rec) (Some (wrap I32 ns)))
+           let '(s, ns) := time_from_ticks epoch ipd (rec_ticks rec) in
+           mkrow (wrap I64 s) (firstn (n - 4) rec) (Some (wrap I32 ns)))
         (chunks (length payload) (Z.to_nat vrl) payload).
 
   Inductive cres := COk (c : cs) | CErr | CPanic | CUnmodelled.
@@ -345,8 +345,20 @@ Section Repl.
     | x :: a', y :: b' => f x y && all2 f a' b'
     | _, _ => false
     end.
-  Definition close_rows (tol : Z) (a b : list qrow) : bool :=
-    all2 (fun x y => (Z.abs (q_time x - q_time y) <=? tol) && bytes_eqb (q_data x) (q_data y)) a b.
+  (** same rows up to the tolerance: every row of [a] is matched by its own row of [b] (same column bytes, time
+      within [tol]); records closer than the resolution may come back in another order *)
+  Fixpoint remove_close (tol : Z) (x : qrow) (l : list qrow) : option (list qrow) :=
+    match l with
+    | [] => None
+    | y :: r =>
+        if (Z.abs (q_time x - q_time y) <=? tol) && bytes_eqb (q_data x) (q_data y) then Some r
+        else match remove_close tol x r with Some r' => Some (y :: r') | None => None end
+    end.
+  Fixpoint close_rows (tol : Z) (a b : list qrow) : bool :=
+    match a with
+    | [] => match b with [] => true | _ => false end
+    | x :: a' => match remove_close tol x b with Some b' => close_rows tol a' b' | None => false end
+    end.
 
   Definition convergedb (sm sr : store) : bool :=
     (length sm =? length sr)%nat &&
@@ -385,23 +397,48 @@ Section Repl.
     && (Z.of_nat (length (ws_payload w)) =? rowsize (ws_shapes w) - 8)
     && idx_okb w && bucket_fitsb st w.
 
-  Definition nanos_okb (w : ws) : bool :=
-    let epoch := sec_of (IndexToTime z (ws_idx w) (ws_tf w) (ws_year w)) in
-    forallb (fun rec => let n := wrap I32 (snd (time_from_ticks epoch (ipd_of (ws_tf w)) (rec_ticks rec))) in
-                        (0 <=? n) && (n <? ws_tf w))
+  (** the time GetTimeFromTicks decodes from a record's ticks, in ns *)
+  Definition rec_time (epoch ipd : Z) (rec : list byte) : Z :=
+    let '(s, ns) := time_from_ticks epoch ipd (rec_ticks rec) in wrap I64 s * NS + wrap I32 ns.
+
+  (** every record's decoded time lies in the record's own interval *)
+  Definition time_okb (w : ws) : bool :=
+    let t0 := IndexToTime z (ws_idx w) (ws_tf w) (ws_year w) in
+    forallb (fun rec => let d := rec_time (sec_of t0) (ipd_of (ws_tf w)) rec - t0 in (0 <=? d) && (d <? ws_tf w))
             (chunks (length (ws_payload w)) (Z.to_nat (ws_vrl w)) (ws_payload w)).
 
-  Definition var_okb (st : store) (w : ws) : bool :=
+  Definition var_wfb (st : store) (w : ws) : bool :=
     (ws_rt w =? RT_VARIABLE) && tf_okb (ws_tf w) && negb (has_name nanos_name (ws_shapes w))
     && (ws_vrl w =? rowsize (ws_shapes w) - 8 + 4) && (4 <=? ws_vrl w)
     && (Z.of_nat (length (ws_payload w)) mod ws_vrl w =? 0) && (ws_vrl w <=? Z.of_nat (length (ws_payload w)))
-    && idx_okb w && nanos_okb w && bucket_fitsb st w.
+    && idx_okb w && bucket_fitsb st w.
 
-  (** what the replica makes of one VARIABLE record: the columns, and ticks recomputed from
-      interval start + nanosecond part (the seconds GetTimeFromTicks returns are dropped) *)
+  Definition var_okb (st : store) (w : ws) : bool := var_wfb st w && time_okb w.
+
+  (** C10's finding F1 (decoded-second-rounded-up): GetTimeFromTicks rounds the seconds to 8 decimals but keeps
+      the sub-second part; ticks whose exact position ticks * interval / 2^32 has a sub-second part of at least
+      0.99999999 s decode about one second late.  The replica re-encodes the decoded time, so the rounding can
+      bite on the master's ticks or on the re-encoded ones. *)
+  Definition f1_at (ipd ticks : Z) : bool :=
+    if ipd =? 0 then false else 999999990 <=? (ticks * (86400000000000 / ipd) / 4294967296) mod 1000000000.
+
+  Definition f1_exposed (w : ws) : bool :=
+    (ws_rt w =? RT_VARIABLE) &&
+    let t0 := IndexToTime z (ws_idx w) (ws_tf w) (ws_year w) in
+    let ipd := ipd_of (ws_tf w) in
+    existsb (fun rec =>
+               let t := rec_time (sec_of t0) ipd rec in
+               f1_at ipd (rec_ticks rec) ||
+               match TimeToIndex z t (ws_tf w) with
+               | Ok i => f1_at ipd (get_ticks t i ipd)
+               | _ => true
+               end)
+            (chunks (length (ws_payload w)) (Z.to_nat (ws_vrl w)) (ws_payload w)).
+
+  (** what the replica makes of one VARIABLE record: the columns, and the ticks RE-ENCODED from the time the
+      master's ticks decode to *)
   Definition retick_rec (epoch ipd idx ipd_b : Z) (rec : list byte) : list byte :=
-    let ns := wrap I32 (snd (time_from_ticks epoch ipd (rec_ticks rec))) in
-    firstn (length rec - 4) rec ++ le_bytes 4 (get_ticks (epoch * NS + ns) idx ipd_b).
+    firstn (length rec - 4) rec ++ le_bytes 4 (get_ticks (rec_time epoch ipd rec) idx ipd_b).
 
   Definition retick_ws (w : ws) : ws :=
     let epoch := sec_of (IndexToTime tz_utc (ws_idx w) (ws_tf w) (ws_year w)) in
